@@ -454,6 +454,7 @@ package raft
 //@   loop range r.followers invariant [matches] matches == 1 + cnt(visited, matchSet(r, index))
 
 //@ func Raft.sendAppendEntries
+//@   flags splitexits
 //@   release s1 [leader-id] r.state == Leader && request.Term == r.currentTerm && request.LeaderID == r.id
 //@   release s1 [wf] WF(request) && request.LeaderCommit == r.commitIndex && r.lastIncludedIndex <= request.PrevLogIndex
 //@   release s1 [entries-verbatim] forall j int :: 0 <= j && j < len(request.Entries) ==> request.Entries[j].Term == Lterm[request.PrevLogIndex+1+j] && request.Entries[j].EntryType == Ltyp[request.PrevLogIndex+1+j] && request.Entries[j].Data == Ldata[request.PrevLogIndex+1+j]
